@@ -32,7 +32,8 @@ RULE = ('(a) for every option of async_background_batcher alone and jointly at n
         '@deco(timeout=T) for T in a grid: call instants; (c) threadsafe_async_cache direct vs @deco(cache=M): the '
         'supplied mapping is the store; (d) a decorated batcher used from 1..3 loops successively and 2..3 at once: '
         'each loop equals a stand-alone machine fed only its own inputs; (e) one configured decorator object applied to two '
-        'functions used on one loop equals the two direct forms; distinct = distinct (form, options, program)')
+        'functions used on one loop equals the two direct forms; (f) loops A, B, A again in one thread: A keeps its batcher; '
+        'distinct = distinct (form, options, program)')
 
 
 def pre_build():
@@ -380,6 +381,84 @@ def shared_decorator(seed, count, out):
         out.count('shared-decorator:' + which)
 
 
+# ------------------------------------------------------------------ (f) a loop used again after another loop came by
+def interleaved_loops(out):
+    """One decorated batcher, loops A and B in one thread: A makes calls and stops (run_until_complete returns, the
+    loop is NOT closed), B makes its first call, A is run again.  A keeps ITS batcher: what it remembered
+    (retention) is still remembered, what was in flight still arrives, its concurrency limit still counts."""
+    from aiuti.asyncio import async_background_batcher
+    for ret, inflight in ((640, False), (640, True), (0, True)):
+        case = {'part': 'interleaved-loops', 'ret': ret, 'inflight': inflight}
+        mark(case)
+        out.evaluations += 1
+        log = []
+        loops = {}
+
+        async def bf(batch):
+            batch = list(batch)
+            lp = asyncio.get_running_loop()
+            log.append((loops[lp], round(lp.time() / TICK), [k for k, _ in batch]))
+            await asyncio.sleep(48 * TICK)
+            for k, a in batch:
+                yield k, (loops[lp], len(log), a)
+        f = async_background_batcher(max_batch_size=2, max_concurrent_batches=1, batch_timeout=16 * TICK,
+                                     retention_timeout=ret * TICK)(bf)
+        A, Bl = VLoop(), VLoop()
+        loops[A], loops[Bl] = 'A', 'B'
+        res = {}
+        try:
+            async def a1():
+                res['a1'] = await f(1)
+                if inflight:
+                    # leave a request in flight when the loop stops
+                    res['pending'] = asyncio.ensure_future(f(2))
+                    await asyncio.sleep(20 * TICK)
+
+            async def b1():
+                res['b1'] = await f(1)
+
+            async def a2():
+                if inflight:
+                    res['a_inflight'] = await asyncio.wait_for(res['pending'], 4000 * TICK)
+                res['a2'] = await f(1)          # inside A's retention window if ret > 0
+            asyncio.set_event_loop(A)
+            A.run_until_complete(a1())
+            asyncio.set_event_loop(Bl)
+            Bl.run_until_complete(b1())
+            asyncio.set_event_loop(A)
+            try:
+                A.run_until_complete(a2())
+            except BaseException as e:  # noqa
+                res['a2-error'] = type(e).__name__
+        finally:
+            for lp in (A, Bl):
+                try:
+                    lp.close()
+                except BaseException:  # noqa
+                    pass
+            asyncio.set_event_loop(None)
+        bad = []
+        nA1 = sum(1 for l in log if l[0] == 'A' and l[2] == ['1'])
+        if 'a2-error' in res:
+            bad.append(f"the second run of loop A failed with {res['a2-error']}")
+        if ret > 0 and nA1 != 1:
+            bad.append(f'key 1 was computed {nA1} times on loop A inside its retention window (batches: {log})')
+        if ret > 0 and res.get('a2') != res.get('a1'):
+            bad.append(f"loop A's repeated call got {res.get('a2')}, the remembered outcome is {res.get('a1')}")
+        if ret == 0 and nA1 != 2:
+            bad.append(f'with retention_timeout=0 key 1 must be computed afresh on loop A: {nA1} computations')
+        if inflight and (res.get('a_inflight') or ('?',))[0] != 'A':
+            bad.append(f"the request left in flight on loop A was answered with {res.get('a_inflight')}")
+        if (res.get('b1') or ('?',))[0] != 'B':
+            bad.append(f"loop B's call was answered by {res.get('b1')}")
+        for m in bad:
+            out.concrete.append({'case': case, 'what': 'one decorated batcher, loops A then B then A again: ' + m,
+                                 'signature': {'kind': 'per-loop', 'part': 'interleaved'}})
+        out.traces_validated += 1
+        out.fingerprints.add(fingerprint(case))
+        out.count('interleaved-loops')
+
+
 def _chunk(payload):
     import logging
     logging.disable(logging.CRITICAL)
@@ -395,6 +474,7 @@ def _chunk(payload):
     else:
         buffer_forms(out)
         cache_forms(out)
+        interleaved_loops(out)
     return out
 
 
@@ -438,6 +518,8 @@ def replay(ctx, payload):
         cache_forms(out)
     elif part == 'shared-decorator':
         shared_decorator(case.get('seed', ctx.seed), case.get('index', 0) + 1, out)
+    elif part == 'interleaved-loops':
+        interleaved_loops(out)
     else:
         per_loop(ctx.seed, 20, out, ctx.driver)
     return {'case': case, 'violations': [c['what'] for c in out.concrete], 'fails': bool(out.concrete)}
